@@ -62,6 +62,15 @@ def run(ctx):
                 if n.lower() == 'cookie':
                     lines.append('cookies %s' % hx(v))
                     meta.append(('cookie', v, None, None))
+    # header lookup on collections with repeated names in mixed letter case: get = first, get_all = all in order,
+    # remove = every one of that name
+    HN = ['Content-Length', 'content-length', 'CONTENT-LENGTH', 'Cookie', 'cookie', 'X-Forwarded-For', 'x-forwarded-for', 'X-Custom',
+          'x-custom', 'X-CUSTOM', 'Host', 'Connection', 'Accept', 'accept', 'Set-Cookie', 'set-cookie', 'X-Other']
+    for i in range(0 if ctx.replay else (4000 if thorough else 400)):
+        hs = [(rng.choice(HN), 'v%d' % k) for k in range(rng.randint(0, 8))]
+        name = rng.choice(HN)
+        lines.append('hdr_get %s %s' % (','.join('%s:%s' % (hx(k), hx(v)) for k, v in hs) or '-', hx(name)))
+        meta.append(('hdr', (hs, name), None, None))
     m, im = ctx.both(lines)
     first_parse = {}
     for line, (kind, g, den, data), a, b in zip(lines, meta, m, im):
@@ -82,10 +91,23 @@ def run(ctx):
                 diff = G.request_matches(den, G.parse_show(b))
                 if diff:
                     failing, what = True, 'parsed request differs from what the bytes denote: ' + diff
+            elif kind == 'hdr':
+                allv = [v for k, v in g[0] if k.lower() == g[1].lower()]
+                want = 'first=%s all=[%s]' % (allv[0].encode().hex() if allv else 'none', ','.join(v.encode().hex() for v in allv))
+                failing, what = b.split(' rest=')[0] != want, 'Headers::get / get_all / remove on repeated names differs'
             elif kind == 'rt':
                 failing, what = True, 'serialise-then-parse differs from the model'
             ctx.report({'line': line, 'kind': kind}, b[:600], a[:600], cls='req-mismatch', failing_input=failing, what=what)
             continue
+        if kind == 'hdr':
+            hs, name = g
+            allv = [v for k, v in hs if k.lower() == name.lower()]
+            want = 'first=%s all=[%s]' % (allv[0].encode().hex() if allv else 'none', ','.join(v.encode().hex() for v in allv))
+            if b.split(' rest=')[0] != want:
+                ctx.report({'line': line, 'kind': kind}, b[:300], want, cls='req-header-lookup', failing_input=True,
+                           what='Headers::get / get_all on repeated names: first / all-in-order expected')
+            elif len(allv) >= 2:
+                ctx.mark_nontrivial(line)
         if kind in ('gen', 'flat'):
             got = G.parse_show(b)
             diff = G.request_matches(den, got)
